@@ -167,39 +167,59 @@ Qed.
 
 Definition ascii_ws : list N := [32; 9; 10; 13; 11; 12]%N.
 
-(* on classified code points: no NUL, the last one an ASCII white space character *)
-Lemma fromisoformat_trailing l w d : Forall nz l -> In w ascii_ws -> fromisoformat (l ++ [Ch w]) = Some d -> dt_off d = None.
+(* a last character that is neither an ASCII digit nor Z nor NUL nor a surrogate *)
+Definition bad_end (w : N) : Prop := is_ascii_digit w = false /\ w <> 90%N /\ w <> 0%N /\ is_surrogate (Ch w) = false.
+
+Lemma utf8_last w c : bad_end w -> utf8 (Ch w) = Some c -> exists c' x, c = c' ++ [x] /\ is_dg x = false /\ is_ch x 90 = false.
+Proof.
+  intros (Hd & Hz & H0 & Hs) H. unfold utf8 in H.
+  assert (Hk : forall k y, (91 <= k)%N -> is_ch (Ch (k + y)) 90 = false) by (intros k y Hk; cbn [is_ch]; apply N.eqb_neq; lia).
+  destruct (w <? 128)%N.
+  { injection H as <-. exists [], (Ch w). repeat split. cbn [is_ch]. now apply N.eqb_neq. }
+  destruct (w <? 2048)%N.
+  { assert (Hx := Hk 128%N (w mod 64)%N ltac:(lia)). injection H as <-. exists [Ch (192 + w / 64)%N], (Ch (128 + w mod 64)%N). repeat split. exact Hx. }
+  destruct (w <? 65536)%N.
+  { rewrite Hs in H. assert (Hx := Hk 128%N (w mod 64)%N ltac:(lia)). injection H as <-.
+    exists [Ch (224 + w / 4096)%N; Ch (128 + (w / 64) mod 64)%N], (Ch (128 + w mod 64)%N). repeat split. exact Hx. }
+  destruct (w <=? 1114111)%N; [|discriminate].
+  assert (Hx := Hk 128%N (w mod 64)%N ltac:(lia)). injection H as <-.
+  exists [Ch (240 + w / 262144)%N; Ch (128 + (w / 4096) mod 64)%N; Ch (128 + (w / 64) mod 64)%N], (Ch (128 + w mod 64)%N). repeat split. exact Hx.
+Qed.
+
+(* on classified code points: no NUL, the last one neither digit nor Z *)
+Lemma fromisoformat_trailing l w d : Forall nz l -> bad_end w -> fromisoformat (l ++ [Ch w]) = Some d -> dt_off d = None.
 Proof.
   intros Hl Hw. unfold fromisoformat.
   destruct (parse_fields (l ++ [Ch w])) as [r|] eqn:Hp; [|discriminate]. intros Hb. apply (build_naive r d Hb).
   unfold parse_fields in Hp. destruct (Nat.ltb (length (l ++ [Ch w])) 7); [discriminate|].
-  assert (Hsur : is_surrogate (Ch w) = false) by (cbn [In ascii_ws] in Hw; repeat (destruct Hw as [<-|Hw]; [reflexivity|]); contradiction).
-  assert (Hwnz : nz (Ch w)) by (cbn [In ascii_ws] in Hw; repeat (destruct Hw as [<-|Hw]; [reflexivity|]); contradiction).
-  assert (Hu : utf8 (Ch w) = Some [Ch w]) by (cbn [In ascii_ws] in Hw; repeat (destruct Hw as [<-|Hw]; [reflexivity|]); contradiction).
+  assert (Hsur : is_surrogate (Ch w) = false) by apply Hw.
+  assert (Hwnz : nz (Ch w)) by (unfold nz; cbn [is_ch]; apply N.eqb_neq; apply Hw).
   pose proof (sanitize_nz (l ++ [Ch w]) ltac:(apply Forall_app; split; [exact Hl | repeat constructor; exact Hwnz])) as Hsn.
   destruct (sanitize_last l (Ch w) Hsur) as (l' & Hs). rewrite Hs in Hp, Hsn.
   destruct (encode (l' ++ [Ch w])) as [b|] eqn:He; [|discriminate].
   pose proof (encode_nz _ _ Hsn He) as Hbnz.
-  rewrite encode_app, Hu in He. destruct (encode l') as [a|]; [|discriminate]. injection He as <-.
-  destruct (find_separator (a ++ [Ch w])) as [sep|]; [|discriminate].
-  destruct (parse_date (a ++ [Ch w]) sep) as [rd|]; [|discriminate].
-  destruct (Nat.ltb sep (length (a ++ [Ch w]))).
-  - destruct (parse_time (a ++ [Ch w]) _ (length (a ++ [Ch w]))) as [rt|] eqn:Hpt; [|discriminate].
+  rewrite encode_app in He. destruct (encode l') as [a|]; [|discriminate].
+  destruct (utf8 (Ch w)) as [c|] eqn:Hu; [|discriminate]. injection He as <-.
+  destruct (utf8_last w c Hw Hu) as (c' & x & -> & Hxd & Hxz). rewrite app_assoc in *.
+  destruct (find_separator ((a ++ c') ++ [x])) as [sep|]; [|discriminate].
+  destruct (parse_date ((a ++ c') ++ [x]) sep) as [rd|]; [|discriminate].
+  destruct (Nat.ltb sep (length ((a ++ c') ++ [x]))).
+  - destruct (parse_time ((a ++ c') ++ [x]) _ (length ((a ++ c') ++ [x]))) as [rt|] eqn:Hpt; [|discriminate].
     injection Hp as <-. cbn [rd_time].
-    apply (parse_time_naive (a ++ [Ch w]) (at_nz _ Hbnz)) in Hpt; [exact Hpt | rewrite app_length; cbn; lia | rewrite at_last; reflexivity |].
-    rewrite at_last. cbn [In ascii_ws] in Hw; repeat (destruct Hw as [<-|Hw]; [reflexivity|]); contradiction.
+    apply (parse_time_naive ((a ++ c') ++ [x]) (at_nz _ Hbnz)) in Hpt; [exact Hpt | rewrite app_length; cbn; lia | rewrite at_last; exact Hxd | rewrite at_last; exact Hxz].
   - injection Hp as <-. exact I.
 Qed.
 
-Theorem trailing_white_space_is_no_datetime s w : ~ In 0%N s -> In w ascii_ws -> parse_as_datetime (s ++ [w]) = PErr.
+(* an aware datetime ends in a digit or in Z *)
+Theorem last_character_is_digit_or_Z s w : ~ In 0%N s -> bad_end w -> parse_as_datetime (s ++ [w]) = PErr.
 Proof.
   intros H0 Hw. unfold parse_as_datetime.
   destruct (s ++ [w]) as [|c0 r0] eqn:E; [destruct s; discriminate|]. rewrite <- E. clear E c0 r0.
   rewrite map_app. cbn [map].
-  assert (Hc : classify w = Ch w) by (cbn [In ascii_ws] in Hw; repeat (destruct Hw as [<-|Hw]; [reflexivity|]); contradiction).
+  assert (Hc : classify w = Ch w) by (unfold classify; destruct Hw as (-> & _); reflexivity).
   rewrite Hc.
   assert (Hz : ends_with_Z (map classify s ++ [Ch w]) = false).
-  { unfold ends_with_Z. rewrite rev_app_distr. cbn [rev app]. cbn [In ascii_ws] in Hw; repeat (destruct Hw as [<-|Hw]; [reflexivity|]); contradiction. }
+  { unfold ends_with_Z. rewrite rev_app_distr. cbn [rev app is_ch]. apply N.eqb_neq. apply Hw. }
   rewrite Hz.
   assert (Hl : Forall nz (map classify s)).
   { apply Forall_forall. intros t Ht. apply in_map_iff in Ht. destruct Ht as (c & <- & Hc'). unfold nz, classify.
@@ -207,6 +227,12 @@ Proof.
   destruct (fromisoformat (map classify s ++ [Ch w])) as [d|] eqn:Hf; [|reflexivity].
   now rewrite (fromisoformat_trailing _ w d Hl Hw Hf).
 Qed.
+
+Lemma ws_bad_end w : In w (ascii_ws ++ [160; 8239; 12288; 65279])%N -> bad_end w.
+Proof. intros H. cbn [In ascii_ws app] in H. repeat (destruct H as [<-|H]; [repeat split; discriminate|]). contradiction. Qed.
+
+Theorem trailing_white_space_is_no_datetime s w : ~ In 0%N s -> In w ascii_ws -> parse_as_datetime (s ++ [w]) = PErr.
+Proof. intros H0 Hw. apply last_character_is_digit_or_Z; [exact H0|]. apply ws_bad_end. apply in_or_app. now left. Qed.
 
 Corollary trailing_white_space_unfulfilled s w : ~ In 0%N s -> In w ascii_ws ->
   eval_931 (s ++ [w]) = Ok unfulfilled_v /\ eval_932 (s ++ [w]) = Ok unfulfilled_v /\ eval_933 (s ++ [w]) = Ok unfulfilled_v /\
